@@ -201,9 +201,12 @@ def designator(g, kind):
     raise AssertionError(kind)
 
 
-def designation_descriptor(g, kind):
+def designation_descriptor(g, kind, concrete_header=False):
     dtype, body, dexp = designator(g, kind)
-    hdr, e = g.fields(4, DESIG_HDR)
+    if concrete_header:
+        hdr, e = [0x51, 0x90, 0, 0], {"protocol_identifier": 5, "code_set": 1, "piv": 1, "association": 1}
+    else:
+        hdr, e = g.fields(4, DESIG_HDR)
     hdr[1] = hdr[1] | dtype
     hdr[3] = len(body)
     e["designator_type"] = dtype
@@ -212,12 +215,12 @@ def designation_descriptor(g, kind):
     return hdr + body, e
 
 
-def vpd_device_identification(ctx, kinds, trailing=0):
+def vpd_device_identification(ctx, kinds, trailing=0, concrete_headers=False):
     g = Gen(ctx)
     exp = {}
     body, descs = [], []
     for k in kinds:
-        b, e = designation_descriptor(g, k)
+        b, e = designation_descriptor(g, k, concrete_headers)
         body += b
         descs.append(e)
     hdr = _vpd_header(g, 0x83, len(body), exp)
@@ -569,6 +572,10 @@ READCD_CONFIGS = {
     "cdda-userdata-c2-294-subq": (dict(est=1, mcsb=0x02, c2ei=1, scsb=2), [("data", 2352), ("c2ei-data", 294), ("subq", 16)]),
     "mode1-all": (dict(est=2, mcsb=0x17, c2ei=0, scsb=0),
                   [("sync", 12), ("header", 4), ("data", 2048), ("edc", 4), ("zero", 8), ("p-parity", 172), ("q-parity", 104)]),
+    # header codes 11b ("all headers") on a Mode 1 sector: there is no sub-header, same layout as 0x17
+    "mode1-all-headercodes-11": (dict(est=2, mcsb=0x1F, c2ei=0, scsb=2),
+                                 [("sync", 12), ("header", 4), ("data", 2048), ("edc", 4), ("zero", 8), ("p-parity", 172),
+                                  ("q-parity", 104), ("subq", 16)]),
     "mode1-userdata-raw-subchannel": (dict(est=2, mcsb=0x02, c2ei=0, scsb=4), [("data", 2048), ("subraw", 96)]),
     "mode2form1-all": (dict(est=4, mcsb=0x1F, c2ei=2, scsb=0),
                        [("sync", 12), ("header", 4), ("subheader", 8), ("data", 2048), ("edc", 4), ("p-parity", 172),
